@@ -49,7 +49,7 @@ def run(rep):
             rep.note(f"Dev={{{d}}} violates {rv.violated}")
     cases = [s for s in scen if s["fault"]["step"] != "none"]
     if quick:
-        cases = [s for s in cases if rng.random() < 0.35]
+        cases = K.stratified(cases, rng)
     cases = [K.assign_flavours(s, rng) for s in cases]
     skipped = [s for s in cases if not K.in_fragment(s)]
     cases = [s for s in cases if K.in_fragment(s)]
